@@ -53,7 +53,7 @@ def setup(ctx):
     import ginjax.geometric  # noqa: F401
 
     st = rconv.selftest()
-    _mon = monitors.ConvMonitor().install()
+    _mon = monitors.ConvMonitor(max_elems=400_000_000).install()
     return st
 
 
@@ -71,6 +71,10 @@ def run(case, ctx):
     rng = rng_for(ctx["seed"], ID, case["i"])
     D = case["D"]
     cfg = gen.conv_config(rng, D)
+    if case["i"] % 40 == 39:
+        # realistic sizes: a larger image and more channels (code paths gated on sizes), cheap tensor orders
+        cfg["sp"] = [int(v) for v in (rng.integers(24, 49, size=2) if D == 2 else rng.integers(8, 13, size=3))]
+        cfg["Cin"], cfg["Cout"], cfg["k"], cfg["k2"] = int(rng.integers(8, 33)), int(rng.integers(8, 17)), int(rng.integers(0, 2)), int(rng.integers(0, 2))
     is_torus, stride, padding, lhs, rhs = gen.conv_args(cfg)
     sp, fsp, k, k2 = tuple(cfg["sp"]), tuple(cfg["fsp"]), cfg["k"], cfg["k2"]
     B, Cin, Cout = cfg["B"], cfg["Cin"], cfg["Cout"]
